@@ -333,6 +333,11 @@ Fails(e) == (IF IsOpEvent(e) THEN FaultFails(e) ELSE {}) \cup
                       \cup F(e.exit2 = 0 /\ e.nfiles = 1, "C20.jwk2key-exit")
                       \cup (IF e.exit2 # 0 \/ e.nfiles # 1 \/ e.exit3 # 0 THEN F(e.exit3 = 0, "C20.jwk2key-output")
                             ELSE F(P_SameKey(e.imp2, e.kty, e.bits, e.priv), "C20.jwk2key-samekey")))
+    [] e.e = "ToolKeyConvMulti" ->
+         IF ~On("C20") THEN {}
+         ELSE F(e.exit1 = 0 /\ e.nkeys1 = e.n /\ Len(e.imps) = e.n, "C20.key2jwk-multi-exit")
+              \cup (IF e.exit1 # 0 \/ e.nkeys1 # e.n \/ Len(e.imps) # e.n THEN {}
+                    ELSE F(\A i \in 1..e.n : P_SameKey(e.imps[i], e.want[i].kty, e.want[i].bits, e.want[i].priv), "C20.key2jwk-multi-samekey"))
     [] e.e = "Thread" -> IF On("C18") THEN F(e.seq = e.par, "C18.results") ELSE {}
     [] e.e = "Codec" -> CodecFails(e)
     [] e.e = "CodecBatch" -> CodecBatchFails(e)
